@@ -4,7 +4,7 @@
     used for the round trip).  Specification: Wire/SpecEnc.v (spec_enc, encodable), Msg/HeaderSpec.v,
     Msg/MsgSpec.v, Names/Spec.v.  Examples: Msg/Examples.v. *)
 From RB Require Import Base.Prelude Sig.Types Sig.Validator Sig.ParserProofs Wire.Bytes Wire.Align Wire.Text Wire.Value
-  Wire.SpecEnc Wire.Decode Names.Spec Msg.Flags Msg.Header Msg.HeaderSpec Msg.MsgSpec Msg.HeaderDecode Msg.HeaderProofs Msg.Round.
+  Wire.SpecEnc Wire.Decode Names.Spec Msg.Flags Msg.Header Msg.HeaderSpec Msg.MsgSpec Msg.HeaderDecode Msg.HeaderProofs Msg.Round Msg.Accept.
 
 (* whenever a message marshals, the header bytes are exactly the specification's header: the 12 fixed bytes
    (with the body length and the serial), the a(yv) value of the message's fields encoded at offset 12 by the
@@ -32,6 +32,16 @@ Theorem C05_refuse : forall m serial, rust_typed m -> ~ names_valid m \/ m_typ m
 Proof. exact marshal_msg_refuse. Qed.
 Print Assumptions C05_refuse.
 
+(* conversely, a message of a valid type whose names and body signature are valid and whose header fits the
+   protocol's limits (field array <= 64 MiB, message <= 128 MiB) IS marshalled, to the specification's header *)
+Theorem C05_accept : forall m serial, rust_typed m -> fields_valid m -> m_typ m <> MInvalid ->
+  len (spec_enc_list (m_be m) 16 (map field_val (fields_of_msg m))) <= MAX_ARRAY ->
+  len (spec_header m serial) + len (m_body m) <= 2 ^ 27 ->
+  opt_all (fun s => len s < 2 ^ 32) (m_object m) ->
+  marshal_msg m serial = Ok (spec_header m serial).
+Proof. exact marshal_accept. Qed.
+Print Assumptions C05_accept.
+
 (* marshalling returns Ok or Err: no panic, whatever the message *)
 Theorem C05_total : forall m serial, ok_or_err (marshal_msg m serial).
 Proof. exact marshal_msg_total. Qed.
@@ -57,3 +67,25 @@ Theorem C05_flags : forall f x, x < 256 ->
   /\ into_raw f = 2 ^ bit f.
 Proof. exact flags_spec. Qed.
 Print Assumptions C05_flags.
+
+(* the standard_messages constructors (hello, list_names, request_name, release_name, add_match, remove_match; ping;
+   unknown_method, invalid_args) put in valid names and the fields their type requires, whatever their arguments:
+   by C05_accept / C05_roundtrip they can only be refused because of a caller-supplied name or the size limits *)
+Theorem C05_standard_call : forall member body sg nfds, ValidMember member ->
+  let m := with_body (make_standard_msg member) body sg nfds in
+  names_valid m /\ required_present m /\ m_typ m <> MInvalid.
+Proof. exact std_call_valid. Qed.
+Print Assumptions C05_standard_call.
+
+Theorem C05_standard_ping : forall dest, opt_all ValidBusName dest ->
+  names_valid (std_ping dest) /\ required_present (std_ping dest) /\ m_typ (std_ping dest) <> MInvalid.
+Proof. exact std_ping_valid. Qed.
+Print Assumptions C05_standard_ping.
+
+Theorem C05_standard_error : forall call_sender call_serial body sg nfds,
+  opt_all ValidBusName call_sender -> call_serial <> None ->
+  let m1 := with_body (std_unknown_method call_sender call_serial) body sg nfds in
+  let m2 := with_body (std_invalid_args call_sender call_serial) body sg nfds in
+  names_valid m1 /\ required_present m1 /\ names_valid m2 /\ required_present m2.
+Proof. exact std_error_valid. Qed.
+Print Assumptions C05_standard_error.
